@@ -147,6 +147,9 @@ def check(run, model, tier):
     gr = cfg_of(re_)
     run.touch(re_, gr)
     heads = [h for h in gr.loop_heads() if h.kind == 'test']
+    if len(heads) > 1:
+        # the thread loop is the outermost one (inner loops are the business of C04: one step per token)
+        heads = [h for h in heads if not any(h in gr.loop_body(o) for o in heads if o is not h)]
     if len(heads) != 1:
         raise AnalysisError('run_event: loop not found')
     h = heads[0]
